@@ -1,6 +1,7 @@
 """C12 stereo signs: theorems over the regenerated tables + exhaustive correspondence of the three
 _translate_*_sign functions and the geometric sign functions + RDKit agreement search."""
 import itertools
+import re
 import random
 
 import boot  # noqa
@@ -268,6 +269,11 @@ def registry_oracle(m):
             used.add(frozenset((a, c)))
         if len(set(p)) != len(p):
             bad.append(f'cumulene path {p} repeats an atom')
+    # tetrahedrons are sp3 carbons: neutral, closed shell, single bonds only, at most four of them
+    for n in m.tetrahedrons:
+        a = atoms[n]
+        if a.atomic_number != 6 or a.charge or a.is_radical or any(int(x) != 1 for x in bonds[n].values()) or len(bonds[n]) > 4:
+            bad.append(f'tetrahedrons lists atom {n} ({a.atomic_symbol}, charge {a.charge}, radical {a.is_radical}, {len(bonds[n])} bonds) which is not an sp3 carbon')
     # stereogenic tetrahedron: the environment lists exactly the non-hydrogen neighbours
     for n, env in m.stereogenic_tetrahedrons.items():
         if sorted(env) != sorted(x for x in bonds[n] if atoms[x].atomic_number != 1) or len(env) not in (3, 4) or len(bonds[n]) > 4:
@@ -1530,6 +1536,13 @@ def search_stereogenic(ck, pool):
                                      'C[C@H]1CC1', 'C[C@H]1CCC1', 'C[C@H]1CCO1', 'C[C@@H]1CCCCC1', 'C[C@@H]1CCCC(C)C1')]
     # double bonds at hypervalent S / P (four neighbours: not planar, so no cis/trans): fixed in 2e29c31
     fam += [(x, 'hypervalent') for x in ('C/N=S(/C)(C)=O', 'C/C=P(/C)(C)C', 'C/N=S(/C)(=O)c1ccccc1', 'CN=S(C)(C)=O')]
+    # trigonal carbons (carbenium ions, carbanions, radicals) are not stereogenic: a mark on them must not be kept (RDKit drops it)
+    for core in ('F[C{m}{q}](Cl)Br', 'CC[C{m}{q}](C)O', 'OC(=O)[C{m}{q}](C)CC', 'N[C{m}{q}](C)c1ccccc1', 'C1CC[C{m}{q}](C)OC1'):
+        for mk in ('@', '@@'):
+            fam += [(core.format(m=mk, q='+'), 'trigonal'), (core.format(m=mk, q='-'), 'trigonal')]
+            rad = core.format(m=mk, q='')
+            idx = len(re.findall(r'Cl|Br|[A-Za-z]', rad[:rad.index('[C@')]))       # index of the marked atom in the string
+            fam.append((f'{rad} |^1:{idx}|', 'trigonal'))
     fam += [(x, 'corpus') for x in pool]
     for smi, family in fam:
         rd = Chem.MolFromSmiles(smi)
@@ -1554,6 +1567,10 @@ def search_stereogenic(ck, pool):
                               '(RDKit FindPotentialStereo finds none)', {'smiles': smi, 'family': family}, f'{kept_ch} label(s) kept: {m}',
                               'no label', 'RDKit FindPotentialStereo',
                               replay_py=f"from chython import smiles; m=smiles({smi!r}); print(str(m), [(n,a.stereo) for n,a in m.atoms() if a.stereo is not None])")
+        elif family == 'trigonal' and '@@' not in smi and smiles(smi) != smiles(smi.replace('@', '@@')):
+            ck.counterexample(f'trigonal-enantiomers:{smi}', 'the @ and @@ spellings of a trigonal carbon (cation / anion / radical) are different molecules',
+                              {'smiles': smi}, f'{smiles(smi)} != {smiles(smi.replace("@", "@@"))}', 'equal', 'RDKit drops the mark: one species',
+                              replay_py=f"from chython import smiles; print(smiles({smi!r}) == smiles({smi.replace('@', '@@')!r}))")
         elif family != 'corpus' and kept_rd and not kept_ch:
             ck.counterexample(f'label-dropped:{smi}', 'the label of a stereogenic centre (kept by RDKit) is dropped on reading',
                               {'smiles': smi, 'family': family}, str(m), f'{kept_rd} label(s): {Chem.MolToSmiles(rd)}', 'RDKit',
